@@ -51,7 +51,7 @@ CHECKS = {
     'C19': dict(
         category='model_checking', design_ref='6/C19',
         text='NmfuFlags.tla transcribes the resolution algorithm (level, explicit overrides, implication fixpoint, exclusion pass) with its own metadata table. '
-             'TLC enumerates every on/off/absent assignment of the eleven related flags x every -O level (3^11 x 4 = 708588 cases; quick: a 1/16 stride picked by the seed) '
+             'TLC enumerates every on/off/absent assignment of the eleven related flags x every -O level (3^11 x 4 = 708588 cases; quick: a 1/6 stride picked by the seed) '
              'and all 3^5 x 4 optimisation-flag cases, checks on each case: implied flags on, exclusive never both, explicit conflict is an error, explicit beats level, '
              'levels cumulative, independence of the order of distinct flags; the real load_commandline_flags is run on the same command lines (canonical, reversed, shuffled; '
              'mixed spellings) and must yield exactly the configuration or error the specification prescribes. Malformed/unknown options must be diagnosed.',
